@@ -470,3 +470,28 @@ pub fn c17_reserve_items_vec_under_wrappers() {
     cover!(true, "end reached");
     sym::forget((t, r, r2));
 }
+
+// @h prop=C17 tier=quick kind=proof inst="SliceRegion<MirrorRegion<u8>> under OptionRegion, and directly: reserve_items with by-reference ARRAY items arriving through filtering iterators" bounds="Some([a,b]), None, Some([c,d]) announced by reference to an OptionRegion<SliceRegion<..>>; two &[u8; 2] through `.filter(|_| true)` to a SliceRegion; symbolic elements" desc="capacities constant while exactly the announced items are pushed: array items are counted like slices, whatever the iterator's size hint"
+#[cfg_attr(kani, kani::proof, kani::unwind(10))]
+pub fn c17_reserve_items_slice_arrays_filtered() {
+    let e = sym::bytes::<4>();
+    type O = OptionRegion<SliceRegion<MirrorRegion<u8>>>;
+    let items: [Option<[u8; 2]>; 3] = [Some([e[0], e[1]]), None, Some([e[2], e[3]])];
+    let mut t = O::default();
+    t.reserve_items(items.iter());
+    let before = caps(&t);
+    for v in items.iter() {
+        let _ = t.push(v);
+        assert!(same_caps(before, caps(&t)), "C17: CAPACITY-CHANGED while pushing exactly the array items announced to an OptionRegion over a slice region");
+    }
+    let arrays: [[u8; 2]; 2] = [[e[0], e[1]], [e[2], e[3]]];
+    let mut s = SliceRegion::<MirrorRegion<u8>>::default();
+    s.reserve_items(arrays.iter().filter(|_| true));
+    let before = caps(&s);
+    for a in arrays.iter() {
+        let _ = s.push(a);
+        assert!(same_caps(before, caps(&s)), "C17: CAPACITY-CHANGED while pushing exactly the array items announced to a slice region through a filter");
+    }
+    cover!(true, "end reached");
+    sym::forget((t, s));
+}
